@@ -14,6 +14,12 @@ from .interp import Explorer, Undecided
 VERIF = os.path.dirname(os.path.dirname(os.path.abspath(__file__)))
 EVIDENCE_DIR = os.path.join(VERIF, "evidence")
 REPLAY_DIR = os.path.join(VERIF, "replays")
+if os.environ.get("VERIF_NO_EVIDENCE"):
+    # mutant / scratch runs must not touch the committed evidence
+    import tempfile as _tf
+    _scratch = _tf.mkdtemp(prefix="verif_scratch_")
+    EVIDENCE_DIR = os.path.join(_scratch, "evidence")
+    REPLAY_DIR = os.path.join(_scratch, "replays")
 KNOWN = os.path.join(VERIF, "known_findings.json")
 
 
